@@ -294,7 +294,8 @@ fn format_function_param(
 
     if let Some(default_expr) = &param.default_expr {
         output.push_str(" = ");
-        format_expression(default_expr, output, context)?;
+        // A parameter is an element of a comma separated list so a comma expression needs parenthesis
+        format_subexpression(default_expr, 17, OperatorSide::CommaList, output, context)?;
     }
 
     Ok(())
